@@ -60,6 +60,7 @@ def plan(tier, seed):
             tasks.append({"kind": "reuse", "bits": bits, "dt": dt})
             if dt != "bfloat16":
                 tasks.append({"kind": "large", "bits": bits, "dt": dt, "tier": tier})
+            tasks.append({"kind": "repeat", "bits": bits, "dt": dt, "n": 48 if tier == "quick" else 300})
     return tasks
 
 
@@ -212,7 +213,7 @@ def _large_task(task, out):
     dt = num.DTYPES[dtname]
     cfgs = [((4101, 1024), 0, None), ((1000, 2048), 0, 128), ((2048, 1024), 0, 128), ((1030, 260), -1, None)]
     if task["tier"] == "thorough":
-        cfgs += [((11008, 512), 0, 128), ((4099, 1056), 0, 96), ((520, 4100), -1, 130), ((3001, 2048), 0, 64)]
+        cfgs += [((11008, 512), 0, 128), ((4099, 1056), 0, 96), ((520, 4100), -1, 130), ((3001, 2048), 0, 64), ((8193, 1024), 0, None), ((4100, 4224), 0, 128)]
     only = task.get("only")
     base = torch.stack([wq.gen_class(c, 16, dtname, k) for k, c in enumerate(wq.CLASSES)])  # (14, 16)
     for ci, (shape, axis, gs) in enumerate(cfgs):
@@ -224,7 +225,9 @@ def _large_task(task, out):
             # group k holds class (k + rep) % 14, repeated along the group (period 16)
             x = base[(gid + rep) % len(wq.CLASSES), pos % 16].to(dt)
             try:
+                num.poison(x.numel() * x.element_size(), x.numel())
                 q = _quant(x, bits, axis, gs)
+                num.poison(x.numel() * x.element_size())
                 held.append((x, q, q.dequantize()))
             except Exception as e:  # noqa
                 out["violations"].append(violation(PID, dict(task, only=[ci]), {"kind": "large", "bits": bits, "dtype": dtname, "sub": "raised"}, f"raised: large quantize_weight {shape} axis {axis} group {gs}: {type(e).__name__}: {e}"))
@@ -244,9 +247,50 @@ def _large_task(task, out):
                 out["violations"].append(violation(PID, case, dict(fields, sub=sub, **extra), f"{sub}: large {shape} axis {axis} group {gs}: {msg}", {"count": n}))
 
 
+def _repeat_task(task, out):
+    """Repetition ladder: n same-shaped tensors are quantized and dequantized, all results are kept and judged at the end."""
+    bits, dtname, n = task["bits"], task["dt"], task["n"]
+    dt = num.DTYPES[dtname]
+    only = task.get("only")
+    for shape, axis, gs in (((4, 8), 0, None), ((4, 8), 0, 4), ((8, 4), -1, 2)):
+        c = [list(shape), axis, gs]
+        if only and only != c:
+            continue
+        fields = {"kind": "repeat", "bits": bits, "dtype": dtname, "axis": axis, "grouped": gs is not None}
+        case = dict(task, only=c)
+        gid, pos, ng, gsz = wq.group_ids(shape, axis, gs)
+        held = []
+        out["evals"] += 1
+        out["points"] += 1
+        out["nontrivial"] += 1
+        try:
+            for i in range(n):
+                table = torch.stack([wq.gen_class(wq.CLASSES[(i + k) % len(wq.CLASSES)], gsz, dtname, i + k) for k in range(ng)])
+                x = wq.fill(shape, axis, gs, table, dt)
+                q = _quant(x, bits, axis, gs)
+                d = q.dequantize()
+                out["calls"] += 1
+                held.append((i, x, q, d, d.clone()))
+        except Exception as e:  # noqa
+            out["violations"].append(violation(PID, case, dict(fields, sub="raised"), f"raised: repetition ladder {c}: {type(e).__name__}: {e}"))
+            continue
+        for i, x, q, d, snap in held:
+            if not num.same_bits(d, snap):
+                out["violations"].append(violation(PID, case, dict(fields, sub="result_overwritten"), f"result_overwritten: the dequantized tensor #{i + 1} of {n} changed after later same-shaped dequantizations ({c})"))
+                break
+            bad = False
+            for sub, cnt, msg, extra in wq.affine_judge(x, q, bits, axis, gs, dtname, idempotence=False, dq=d):
+                out["violations"].append(violation(PID, case, dict(fields, sub="held_" + sub, **extra), f"held_{sub}: result #{i + 1} of {n} judged after all calls ran ({c}): {msg}", {"count": cnt}))
+                bad = True
+            if bad:
+                break
+
+
 def run_task(task):
     out = {"evals": 0, "nontrivial": 0, "points": 0, "calls": 0, "violations": [], "samples": [], "counters": {}}
-    if task["kind"] == "large":
+    if task["kind"] == "repeat":
+        _repeat_task(task, out)
+    elif task["kind"] == "large":
         _large_task(task, out)
         out["samples"].append({"kind": "large", "shape": [4101, 1024], "axis": 0, "group_size": None, "note": "two tensors quantized+dequantized, then both judged"})
     elif task["kind"] == "reuse":
@@ -271,7 +315,9 @@ def run_task(task):
 
 def replay_task(case):
     out = {"evals": 0, "nontrivial": 0, "points": 0, "calls": 0, "violations": [], "samples": [], "counters": {}}
-    if case["kind"] == "large":
+    if case["kind"] == "repeat":
+        _repeat_task(case, out)
+    elif case["kind"] == "large":
         _large_task(case, out)
     elif case["kind"] == "reuse":
         _reuse_task(case, out)
